@@ -39,7 +39,7 @@ class Obligation(object):
 
     def __init__(self, name, fn, bounds='', mode='exact', max_paths=200000, max_seconds=900.0,
                  solver_timeout_ms=60000, expect_symbolic=True, logic=None, nonfinite='cut',
-                 max_violations=6, purify_div=False):
+                 max_violations=6, purify_div=False, incremental_ms=15000):
         self.name = name
         self.fn = fn
         self.bounds = bounds
@@ -52,6 +52,7 @@ class Obligation(object):
         self.nonfinite = nonfinite
         self.max_violations = max_violations
         self.purify_div = purify_div
+        self.incremental_ms = incremental_ms
 
 
 _OBLIGATIONS = None
@@ -69,6 +70,7 @@ def _run_one(i):
                            max_violations=ob.max_violations if not twin else 1)
         ex.mode = ob.mode
         ex.purify_div = ob.purify_div
+        ex.incremental_timeout_ms = ob.incremental_ms
         ex.twin = twin
         if twin:
             orig = ex.require
@@ -126,6 +128,7 @@ def _child(i, conn):
         conn.send(res)
     finally:
         conn.close()
+    os._exit(0)        # skip interpreter teardown (z3 finalisers)
 
 
 def run_obligations(obligations, nproc=None):
